@@ -5,6 +5,7 @@ import (
 	"6502profiler/caseexec"
 	"6502profiler/cpu"
 	"6502profiler/emuconfig"
+	"6502profiler/memory"
 	"6502profiler/verifier"
 	"fmt"
 	"io"
@@ -54,7 +55,7 @@ func prg(addr uint16, code ...uint8) []byte {
 
 var numIterKinds = []string{"absent", "raise", "0", "1", "3", "2.5", "str3", "nil", "true", "table"}
 var assertKinds = []string{"true", "false", "nil", "1", "strtrue", "nothing", "truemsg", "raise"}
-var binKinds = []string{"brk", "brk", "brk", "illegal", "bcd", "unmapped", "short", "asmfail"}
+var binKinds = []string{"brk", "brk", "brk", "illegal", "bcd", "unmapped", "short", "asmfail", "trapok", "trapraise", "trapmissing", "trapruntime"}
 
 func luaNumIters(kind string) string {
 	switch kind {
@@ -116,6 +117,14 @@ func verdictCase(r *rng.R, dir string) string {
 		fmt.Fprintf(&sb, "  if iter == %d then %s end\n", i+1, luaReturn(a))
 	}
 	sb.WriteString("  return true\nend\n")
+	switch bin {
+	case "trapok":
+		sb.WriteString("function trap(c) set_yreg(c) end\n")
+	case "trapraise":
+		sb.WriteString("function trap(c) error('trap boom') end\n")
+	case "trapruntime":
+		sb.WriteString("function trap(c) local t = nil; t.x = c end\n")
+	}
 	if scriptBroken {
 		sb.WriteString("this is not lua\n")
 	}
@@ -132,6 +141,8 @@ func verdictCase(r *rng.R, dir string) string {
 		code = prg(0x0800, 0xAD, 0x00, 0x90, 0x00) // LDA $9000 on a 32K machine
 	case "short":
 		code = []byte{0x00, 0x08}
+	case "trapok", "trapraise", "trapmissing", "trapruntime":
+		code = prg(0x0800, 0xA9, 0x42, 0x8D, 0x00, 0x7F, 0xE8, 0x00) // LDA #$42; STA $7F00 (trap); INX
 	}
 	fa := &fakeAsm{bins: map[string]string{}}
 	if bin != "asmfail" {
@@ -141,7 +152,12 @@ func verdictCase(r *rng.R, dir string) string {
 	c, _ := cfg.NewCpu()
 	tc := &verifier.TestCase{Name: "t", TestDriverSource: "drv.a", TestScript: "case.lua"}
 	var err error
-	crashed := protect(func() { err = tc.Execute(c, fa, dir, nil, nil, "id") })
+	var ph *memory.PlaceholderWrapper
+	if strings.HasPrefix(bin, "trap") {
+		ph = memory.NewPlaceholderWrapper(c.Mem, 0x7F00)
+		c.Mem = ph.Wrapper
+	}
+	crashed := protect(func() { err = tc.Execute(c, fa, dir, nil, ph, "id") })
 	res := "ok"
 	if err != nil {
 		res = "fail"
@@ -239,7 +255,26 @@ func dirtyPool(spec string, trap bool) []dirtyCase {
 	if trap {
 		trapFn = "function trap(c) set_xreg(c) end\n"
 	}
-	return []dirtyCase{
+	// the highest bank / block / page of the model, through the program's own window
+	high := "write_byte(0x3100, 0x5A)"
+	switch spec {
+	case "XSixteen512K":
+		high = "write_byte(0, 63); write_byte(0xA123, 0x5A); write_byte(0, 40); write_byte(0xBFFF, 0x5B)"
+	case "XSixteen2048K":
+		high = "write_byte(0, 255); write_byte(0xA123, 0x5A); write_byte(0, 128); write_byte(0xBFFF, 0x5B); write_byte(0, 64); write_byte(0xA000, 0x5C)"
+	case "GeoRam_512K":
+		high = "write_byte(0xDFFF, 31); write_byte(0xDFFE, 63); write_byte(0xDE77, 0x6B)"
+	case "GeoRam_2048K":
+		high = "write_byte(0xDFFF, 127); write_byte(0xDFFE, 63); write_byte(0xDE77, 0x6B); write_byte(0xDFFF, 64); write_byte(0xDEFF, 0x6C)"
+	case "F256_512K":
+		high = "write_byte(0, 0x80); write_byte(13, 63); write_byte(0xA055, 0x7C); write_byte(12, 33); write_byte(0x8001, 0x7D)"
+	case "F256_768K":
+		high = "write_byte(0, 0x80); write_byte(13, 95); write_byte(0xA055, 0x7C); write_byte(12, 70); write_byte(0x8001, 0x7D)"
+	}
+	pool := []dirtyCase{
+		{"highbank", prg(0x0800, 0xE8, 0x00), "function arrange() " + high + " end\nfunction assert() return true end\n" + trapFn},
+	}
+	return append([]dirtyCase{
 		{"clean", prg(0x0800, 0xE8, 0x00), "function arrange() end\nfunction assert() return get_xreg() == 1 end\n" + trapFn},
 		{"regs", prg(0x0800, 0xA9, 0x55, 0xA2, 0x66, 0xA0, 0x77, 0x9A, 0x38, 0xF8, 0x00),
 			"function arrange() set_accu(1) set_flags('NV-BDIZC') set_sp(0x10) end\nfunction assert() return true end\n" + trapFn},
@@ -251,7 +286,7 @@ func dirtyPool(spec string, trap bool) []dirtyCase {
 			"function arrange() write_byte(0x0350, 1) end\nfunction assert() return false end\n" + trapFn},
 		{"trapuser", prg(0x0800, 0xA9, 0x42, 0x8D, 0x00, 0x7F, 0x00),
 			"function arrange() end\nfunction trap(c) write_byte(0x0360, c) set_yreg(c) end\nfunction assert() return true end\n"},
-	}
+	}, pool...)
 }
 
 // observe: the complete observable state of the machine a case is given
@@ -325,12 +360,12 @@ func isolationRun(spec string, prexec, trap bool, dir string, cases []dirtyCase)
 func isolationCase(r *rng.R, dir string) string {
 	spec := memSpecs[r.Intn(len(memSpecs))]
 	if r.Chance(40) {
-		spec = []string{"Linear32K", "Linear16K", "XSixteen512K", "GeoRam_512K", "F256_512K"}[r.Intn(5)]
+		spec = []string{"Linear32K", "XSixteen2048K", "XSixteen512K", "GeoRam_2048K", "F256_768K"}[r.Intn(5)]
 	}
 	prexec, trap := r.Bool(), r.Bool()
 	pool := dirtyPool(spec, trap)
 	if !trap {
-		pool = pool[:5]
+		pool = append(pool[:5], pool[6:]...)
 	}
 	k := 2 + r.Intn(3)
 	cases := []dirtyCase{}
